@@ -283,8 +283,17 @@ class MetadataTable:
         for entry in self.entries:
             item_id = UUID(bytes_le=entry.item_id)
 
+            # An item is identified by its ID and its IsUser flag: user items are not the system items we know,
+            # even when they share an ID with one of them
+            parser = None if entry.is_user else self.METADATA_MAP.get(item_id)
+            if parser is None:
+                if entry.is_required:
+                    raise InvalidVirtualDisk(f"Unknown required metadata item: {item_id}")
+                # Unknown items that are not required are to be ignored
+                continue
+
             fh.seek(self.offset + entry.offset)
-            value = self.METADATA_MAP[item_id](fh)
+            value = parser(fh)
             self.lookup[item_id] = value
 
     def get(self, guid: UUID, required: bool = True) -> Any | None:
